@@ -542,9 +542,7 @@ func (c *Coins) get(id types.CoinID) *Model {
 		coin.lock.Unlock()
 	}
 
-	c.setToMap(id, coin)
-
-	return coin
+	return c.setToMapIfAbsent(id, coin)
 }
 
 func (c *Coins) getSymbolInfo(symbol types.CoinSymbol) *SymbolInfo {
@@ -563,9 +561,7 @@ func (c *Coins) getSymbolInfo(symbol types.CoinSymbol) *SymbolInfo {
 		panic(fmt.Sprintf("failed to decode coin symbol %s: %s", symbol.String(), err))
 	}
 
-	c.setSymbolInfoToMap(info, symbol)
-
-	return info
+	return c.setSymbolInfoToMapIfAbsent(info, symbol)
 }
 
 func (c *Coins) getBySymbol(symbol types.CoinSymbol) []types.CoinID {
@@ -584,9 +580,7 @@ func (c *Coins) getBySymbol(symbol types.CoinSymbol) []types.CoinID {
 		panic(fmt.Sprintf("failed to decode coins by symbol %s: %s", symbol, err))
 	}
 
-	c.setSymbolToMap(coins, symbol)
-
-	return coins
+	return c.setSymbolToMapIfAbsent(coins, symbol)
 }
 
 func (c *Coins) markDirty(id types.CoinID) {
@@ -660,6 +654,42 @@ func (c *Coins) setToMap(id types.CoinID, model *Model) {
 	defer c.lock.Unlock()
 
 	c.list[id] = model
+}
+
+// setToMapIfAbsent publishes a model loaded from the tree unless another goroutine published one for the
+// id since getFromMap missed: the published model may already carry uncommitted changes, and everybody
+// must work on the same object.
+func (c *Coins) setToMapIfAbsent(id types.CoinID, model *Model) *Model {
+	c.lock.Lock()
+	defer c.lock.Unlock()
+
+	if existing := c.list[id]; existing != nil {
+		return existing
+	}
+	c.list[id] = model
+	return model
+}
+
+func (c *Coins) setSymbolInfoToMapIfAbsent(info *SymbolInfo, symbol types.CoinSymbol) *SymbolInfo {
+	c.lock.Lock()
+	defer c.lock.Unlock()
+
+	if existing, ok := c.symbolsInfoList[symbol]; ok {
+		return existing
+	}
+	c.symbolsInfoList[symbol] = info
+	return info
+}
+
+func (c *Coins) setSymbolToMapIfAbsent(coins []types.CoinID, symbol types.CoinSymbol) []types.CoinID {
+	c.lock.Lock()
+	defer c.lock.Unlock()
+
+	if existing, ok := c.symbolsList[symbol]; ok {
+		return existing
+	}
+	c.symbolsList[symbol] = coins
+	return coins
 }
 
 func (c *Coins) getSymbolInfoFromMap(symbol types.CoinSymbol) (*SymbolInfo, bool) {
